@@ -68,30 +68,15 @@ func registerIntrinsics(e *Engine) {
 		return s
 	}
 	I["vCallMade"] = func(st *State, a []Value) Value {
-		v, ok := a[0].(*StructV)
+		v, ok := a[0].(*RVal)
 		if !ok {
 			st.unsupported("vCallMade on %T", a[0])
 		}
-		fv, ok := v.F[1].(*FuncV)
+		fv, ok := st.rpayload(v).(*FuncV)
 		if !ok {
-			st.unsupported("vCallMade: value does not hold a MakeFunc closure (%T)", v.F[1])
+			st.unsupported("vCallMade: value does not hold a MakeFunc closure")
 		}
 		return st.Call(fv, []Value{a[1]}, nil)
-	}
-	// vPred(name, arg): an uninterpreted predicate over strings (e.g. the
-	// directory tree); its interpretation is part of the counterexample.
-	I["vPred"] = func(st *State, a []Value) Value {
-		name := constStr(st, a[0], "predicate name")
-		arg := a[1].(*Term)
-		if !st.E.predDeclared[name] {
-			st.E.predDeclared[name] = true
-		}
-		if !st.predDecl[name] {
-			st.predDecl[name] = true
-			st.E.Solver.Cmd(fmt.Sprintf("(declare-fun %s (String) Bool)", name))
-		}
-		st.preds = append(st.preds, predUse{Name: name, Arg: arg})
-		return mk(SBool, 0, "(%s %s)", name, arg.S)
 	}
 	I["vNondetWordN"] = func(st *State, a []Value) Value {
 		label := constStr(st, a[0], "nondet label")
